@@ -15,4 +15,15 @@ VARIANTS = [
     # twins
     V("twin-trailing-sum", CORE + "base_sde.py", "            dg_ga_jvp = dg_ga_jvp.diagonal(dim1=-2, dim2=-1).sum(-1)", "            dg_ga_jvp = dg_ga_jvp.diagonal(dim1=-2, dim2=-1).sum(dim=-1)", expect="silent"),
     V("twin-squeeze", M + "milstein.py", "g_ = g.squeeze(2) if g.dim() == 3 else g  # scalar noise vs diagonal noise", "g_ = g.squeeze(-1) if g.dim() == 3 else g", expect="silent"),
+    # R20.3: row independence decided at index level
+    V("euler-drift-rolled-along-the-batch", M + "euler.py", "y1 = y0 + f * dt + g_prod", "y1 = y0 + f.roll(1, 0) * dt + g_prod", rule="R20.3"),
+    V("milstein-gradfree-stacked-rows-misaligned", M + "milstein.py",
+      "                g_prime_minus = self.sde.g(t0, y0 + self.y_prime_f_factor(dt, f) - g_ * sqrt_dt)\n",
+      "                both = self.sde.g(t0, torch.cat([y0_prime, y0 + self.y_prime_f_factor(dt, f) - g_ * sqrt_dt], dim=0))\n                g_prime, g_prime_minus = both.unflatten(0, (-1, 2)).unbind(dim=1)\n",
+      rule="R20.3", more=(("import abc\n", "import abc\nimport torch\n"),)),
+    V("twin-milstein-gradfree-stacked-rows-split-in-halves", M + "milstein.py",
+      "                g_prime_minus = self.sde.g(t0, y0 + self.y_prime_f_factor(dt, f) - g_ * sqrt_dt)\n",
+      "                both = self.sde.g(t0, torch.cat([y0_prime, y0 + self.y_prime_f_factor(dt, f) - g_ * sqrt_dt], dim=0))\n                g_prime, g_prime_minus = both.chunk(2, dim=0)\n",
+      expect="silent", more=(("import abc\n", "import abc\nimport torch\n"),)),
+    V("heun-noise-of-the-first-row-for-all", M + "heun.py", "I_k = self.bm(t0, t1)", "I_k = self.bm(t0, t1)[:1]", rule="R20.3"),
 ]
